@@ -93,7 +93,7 @@ pub struct Spell {
     pub sep: u8,
     /// write `(.f x)` for `(f . x)` where possible
     pub sugar: bool,
-    /// padding inside parentheses
+    /// padding before the closing parenthesis, as in the documented example `(get :foo "key" )`
     pub pad: bool,
     pub seed: u64,
 }
@@ -181,9 +181,7 @@ fn print_into(e: &Expr, sp: &Spell, mix: &mut crate::gen::Mix, out: &mut String)
                 }
             }
             out.push('(');
-            if sp.pad {
-                out.push(' ');
-            }
+            // no blank between `(` and the function name: the documented form is `(<name> <arg>..)`
             let sugar = sp.sugar && !args.is_empty() && args[0] == Expr::dot() && mix.chance(2, 3);
             if sugar {
                 out.push('.');
@@ -612,12 +610,14 @@ pub struct GenCfg {
     pub max_coll: usize,
     /// prefer bound variables / macros at leaves (C12)
     pub bind_bias: bool,
+    /// prefer `.` as the first argument where its kind fits (so that `(.f x)` sugar applies)
+    pub dot_bias: bool,
     /// deepest `^` the generator may write (usize::MAX = whatever the chain offers)
     pub max_up: usize,
 }
 impl Default for GenCfg {
     fn default() -> Self {
-        GenCfg { ill: 3, chars: Chars::Bmp, bindings: true, wild_numbers: false, exclude: vec!["exec", "trigger", "now"], max_coll: 4, bind_bias: false, max_up: usize::MAX }
+        GenCfg { ill: 3, chars: Chars::Bmp, bindings: true, wild_numbers: false, exclude: vec!["exec", "trigger", "now"], max_coll: 4, bind_bias: false, dot_bias: false, max_up: usize::MAX }
     }
 }
 
@@ -863,10 +863,16 @@ impl<'a> Gen<'a> {
 
     fn leaf(&mut self, want: Kind, env: &Env) -> Expr {
         let mut cands: Vec<Expr> = self.paths(want, env);
-        if self.cfg.bind_bias && (!env.vars.is_empty() || !env.macros.is_empty()) && self.tape.chance(1, 3) {
-            let n = env.vars.len() + env.macros.len();
+        if self.cfg.bind_bias && (!env.vars.is_empty() || !env.macros.is_empty() || !env.sels.is_empty()) && self.tape.chance(1, 3) {
+            let n = env.vars.len() + env.macros.len() + env.sels.len();
             let i = self.tape.below(n);
-            return if i < env.vars.len() { Expr::Var(env.vars[i].0.clone()) } else { Expr::Mac(env.macros[i - env.vars.len()].0.clone()) };
+            return if i < env.vars.len() {
+                Expr::Var(env.vars[i].0.clone())
+            } else if i < env.vars.len() + env.macros.len() {
+                Expr::Mac(env.macros[i - env.vars.len()].0.clone())
+            } else {
+                Expr::Sel(env.sels[i - env.vars.len() - env.macros.len()].0.clone())
+            };
         }
         for (n, k) in &env.vars {
             if satisfies(*k, want) {
@@ -1020,7 +1026,8 @@ impl<'a> Gen<'a> {
             let e = match a {
                 K(k) => {
                     let k = if i == 0 { k0 } else { *k };
-                    let mut x = self.expr(k, d, env);
+                    let dot_fits = i == 0 && self.cfg.dot_bias && env.chain.first().map(|c| *c != Any && satisfies(*c, k)).unwrap_or(false);
+                    let mut x = if dot_fits && self.tape.chance(1, 2) { Expr::dot() } else { self.expr(k, d, env) };
                     // boundary-biased sizes: N around the size of a literal collection
                     if k == Int && i > 0 && self.tape.chance(1, 3) {
                         if let Some(Expr::Lit(t)) = args.first() {
